@@ -21,19 +21,38 @@ RULE = ("case = (mode, template built from segments [data | {{ name }} | for-loo
         "parses else text (leading blank/tab: either accepted, docs silent; empty output not "
         "checked). modes: sync env render, async env render_async, async env render (sync), "
         "sandboxed-native render. Plus single-node constant expressions with a known value. "
+        "Producers: 26 custom filters/globals (registered as c34_<name>) returning instances of "
+        "SUBCLASSES of builtin literal types (IntEnum, namedtuples, float/int/str/tuple/list/dict/set "
+        "subclasses, OrderedDict, Counter, Markup), arbitrary objects, plain builtins and builtin "
+        "types without a literal form (frozenset, range, Ellipsis, NotImplemented, non-finite "
+        "complex), applied to a template LITERAL or to a variable, bare or inside a list/tuple/dict/"
+        "conditional/default/subscript/attribute expression: a single-node template returns an "
+        "object of that very type and value (Python computes the same expression), with data "
+        "around it the text rule applies; builtin groupby/dictsort/batch/items on literals and "
+        "variables return what Environment.call_filter returns. Blocks: template sets (DictLoader) "
+        "[block | extends | overriding child | super() | super() through 2 levels | set s = super() "
+        "| self.v() in set / printed / from a child block] whose block body is one value or several "
+        "pieces: the rule is applied to the block's output to get the value of super()/self.x() and "
+        "again to the template's output. "
         "distinct = distinct (mode, segment-kind sequence, value kinds, expected-result kind) with "
         ">=1 variable segment")
 LEVEL_TEXT = ("held (modulo listed known findings) on K generated (template, data, mode) executions "
-              "+ a 45-row table of constant expressions against the documented three-"
+              "(segment templates, computed single nodes from custom filters/globals, block/extends/"
+              "super()/self.x() template sets) + a 45-row table of constant expressions against the documented three-"
               "sentence model; values cover ints/floats/bools/None/containers/custom objects/"
               "literal-looking strings; not all templates")
 ASSUMPTIONS = [
     "ast.literal_eval (named by the documentation) is the specification of 'parses as a literal'",
     "text with leading space/tab is accepted as either the text or its literal value (docs silent)",
     "templates never end in a newline and contain no \\r (newline normalisation is C12's subject)",
+    "the value of {{ super() }} / {{ self.name() }} in a native environment is the documented native "
+    "result of the referenced block's output (single non-string value itself, else literal-or-text)",
+    "a str-subclass / Markup single node is a string: the text rule applies to its text",
+    "computed objects are compared by type and value (type-strict at every nesting level), objects "
+    "handed in through render() by identity",
 ]
 NSHARDS = {"quick": 16, "thorough": 16}
-BUDGET_S = {"quick": 12, "thorough": 300}
+BUDGET_S = {"quick": 20, "thorough": 300}
 FLOORS = {
     # both tiers are count-bounded on this machine: quick 33.8k evaluations /
     # 11.2k distinct, thorough 1.44M / 269k
@@ -41,12 +60,23 @@ FLOORS = {
               "counters": {"identity_checks": 2300, "literal_results": 2500, "text_results": 2900,
                            "mode:sync.render": 2700, "mode:async.render_async": 2700,
                            "mode:async.render": 1350, "mode:sandbox.render": 1350,
-                           "const_expr_checks": 100}},
+                           "const_expr_checks": 100, "builtin_producer_checks": 100,
+                           "producer_checks": 1700, "producer_literal_input": 1000,
+                           "producer_variable_input": 700, "producer_single_nonstring": 1300,
+                           "producer_single_subclass_or_object": 700, "block_checks": 1400,
+                           "block_super_checks": 500, "block_self_checks": 500,
+                           "block_reference_nonstring_output": 750}},
     "thorough": {"evaluations": 350000, "distinct": 65000,
                  "counters": {"identity_checks": 100000, "literal_results": 110000,
                               "text_results": 130000, "mode:sync.render": 120000,
                               "mode:async.render_async": 120000, "mode:async.render": 60000,
-                              "mode:sandbox.render": 60000, "const_expr_checks": 100}},
+                              "mode:sandbox.render": 60000, "const_expr_checks": 100,
+                              "builtin_producer_checks": 100,
+                              "producer_checks": 60000, "producer_literal_input": 35000,
+                              "producer_variable_input": 24000, "producer_single_nonstring": 45000,
+                              "producer_single_subclass_or_object": 24000, "block_checks": 50000,
+                              "block_super_checks": 18000, "block_self_checks": 18000,
+                              "block_reference_nonstring_output": 25000}},
 }
 
 MODES = ["sync.render", "async.render_async", "async.render", "sandbox.render"]
@@ -971,7 +1001,7 @@ def run(ctx):
     rng = ctx.rng("cases")
     n_max = 700 if quick else 30000
     i = 0
-    while ctx.more(i, n_max, 150):
+    while ctx.more(i, n_max, 250):
         case = gen_case(rng)
         for mode in MODES:
             # the two secondary modes run on every second case
